@@ -5,7 +5,7 @@
    The right-hand sides mention only `val`, so every statement is also independence from the
    representation of the operands and of the result. *)
 From Coq Require Import ZArith List Bool Lia Znumtheory.
-From NV Require Import Common.Outcome Common.MachineInt Num.NInt Num.NIntSpec Num.NInt_proofs Num.NIntPrime_proofs.
+From NV Require Import Common.Outcome Common.MachineInt Num.NInt Num.NIntSpec Num.NInt_proofs Num.NIntPrime_proofs Num.NIntFactor_proofs.
 Import ListNotations.
 Open Scope Z_scope.
 
@@ -213,6 +213,22 @@ Theorem C06_is_prime_no_panic : forall fuel n, ok n -> lazy_is_prime fuel n <> P
 Proof. exact lazy_is_prime_no_panic. Qed.
 Print Assumptions C06_is_prime_no_panic.
 
+(* ---- lazy_factorize: the listed prime powers multiply back to the argument (sign as a leading
+   (-1, 1)), every other base is prime, every exponent positive; factorize 0 = [] ---- *)
+Theorem C06_factorize_correct : forall fuel a l, lazy_factorize fuel a = Ok l ->
+  (a = 0 -> l = []) /\ (a <> 0 -> fprod l = a /\ Forall good_factor l).
+Proof. exact lazy_factorize_correct. Qed.
+Print Assumptions C06_factorize_correct.
+
+Theorem C06_factorize_total : forall a, exists l, lazy_factorize (fact_fuel a) a = Ok l /\
+  (a = 0 -> l = []) /\ (a <> 0 -> fprod l = a /\ Forall good_factor l).
+Proof. exact lazy_factorize_total. Qed.
+Print Assumptions C06_factorize_total.
+
+Theorem C06_factorize_no_panic : forall fuel a, lazy_factorize fuel a <> Panic.
+Proof. exact lazy_factorize_no_panic. Qed.
+Print Assumptions C06_factorize_no_panic.
+
 (* non-vacuity: the hypotheses are met on both sides of the i64 boundary and in both
    representations, and the functions compute *)
 Example C06_nonvacuous :
@@ -230,6 +246,7 @@ Example C06_nonvacuous :
   bi_pow (Small 2) (Small (-3)) = Ok (NRecip (Big 8)) /\
   eqb (Small 5) (Big 5) = true /\ cmp (Big (-2 ^ 64)) (Small i64_min) = Lt /\
   lazy_is_prime 100 (Big 10007) = Ok true /\ lazy_is_prime 100 (Small 10001) = Ok false /\
+  lazy_factorize 10 (-360) = Ok [(-1, 1); (2, 3); (3, 2); (5, 1)] /\ fprod [(-1, 1); (2, 3); (3, 2); (5, 1)] = -360 /\
   prime 2.
 Proof.
   unfold ok, in_i64, i64_min, i64_max.
